@@ -9,6 +9,13 @@ Helper lemmas for C20 (and the `render`/`renderQ` round trips used by C13).  Cor
 * `deriveRows_uniform`: on uniform records the unguarded indexing of `assignTableContent` is
   in range and the cells are the casts of the fields, position by position.
 * `scan_row`, `scan_rows`, `scan_rowQ`, `scan_rowsQ`: the reader run over rendered rows.
+* `castRow`, `deriveTableT_good`, `loadT_of_readAll`: the same with text columns.
+* `scan_rows_prefix`, `endRec_ragged`: a rendered prefix followed by anything; a ragged row.
+* `scan_fieldM_comma/nl`, `scan_fieldsM`, `scan_rowM`: the reader over the mixed-quoting writer;
+  `scan_start_plain_quote`: where the bare-quote error arises; `scan_quoteFree`: no quote error
+  without a quote.
+* `parseLit_digits`, `roundBits_nat`, `parseFloat_digits`: a string of decimal digits below 2^53
+  is parsed to exactly that integer's binary64 pattern.
 -/
 namespace Crem.Csv
 
@@ -184,6 +191,65 @@ theorem load_of_readAll {text : Bytes} {hdr : List Bytes} {rows : List (List Byt
   unfold load
   rw [hr]
   exact deriveTable_good (readAll_good hr)
+
+/-! ## text columns (`ParseCsvTextIntoTableWithTextColumns`) -/
+
+/-- cells of one record when the columns headed by one of `ths` keep their text -/
+def castRow (ths hdr r : List Bytes) : List Cell := List.zipWith (castIn ths) hdr r
+
+theorem castIn_nil (h f : Bytes) : castIn [] h f = cast f := by
+  simp [castIn, isTextColumn]
+
+theorem deriveRowT_nil (hdr r : List Bytes) : deriveRowT [] hdr r = deriveRow hdr.length r := by
+  induction hdr generalizing r with
+  | nil => rfl
+  | cons h hs ih =>
+    cases r with
+    | nil => rfl
+    | cons f fs => simp [deriveRowT, deriveRow, ih, castIn_nil]
+
+theorem deriveRowsT_nil (hdr : List Bytes) (rows : List (List Bytes)) :
+    deriveRowsT [] hdr rows = deriveRows hdr.length rows := by
+  induction rows with
+  | nil => rfl
+  | cons r rs ih => simp [deriveRowsT, deriveRows, ih, deriveRowT_nil]
+
+theorem deriveTableT_nil (records : List (List Bytes)) : deriveTableT [] records = deriveTable records := by
+  cases records with
+  | nil => rfl
+  | cons hdr rows => simp [deriveTableT, deriveTable, deriveRowsT_nil]
+
+theorem deriveRowT_length (ths hdr r : List Bytes) (h : r.length = hdr.length) :
+    deriveRowT ths hdr r = some (castRow ths hdr r) := by
+  induction hdr generalizing r with
+  | nil => simp [deriveRowT, castRow]
+  | cons c cs ih =>
+    cases r with
+    | nil => simp at h
+    | cons f fs =>
+      have h' : fs.length = cs.length := by simpa using h
+      simp [deriveRowT, ih fs h', castRow]
+
+theorem deriveRowsT_uniform (ths hdr : List Bytes) (rows : List (List Bytes)) (h : ∀ r ∈ rows, r.length = hdr.length) :
+    deriveRowsT ths hdr rows = some (rows.map (castRow ths hdr)) := by
+  induction rows with
+  | nil => rfl
+  | cons r rs ih =>
+    simp [deriveRowsT, deriveRowT_length ths hdr r (h r (by simp)), ih (fun x hx => h x (by simp [hx]))]
+
+theorem deriveTableT_good (ths : List Bytes) {hdr : List Bytes} {rows : List (List Bytes)} (h : Good (hdr :: rows)) :
+    deriveTableT ths (hdr :: rows) = .ok { header := hdr, cells := rows.map (castRow ths hdr) } := by
+  simp [deriveTableT, deriveRowsT_uniform ths hdr rows (good_cons h).2]
+
+theorem loadT_of_readAll (ths : List Bytes) {text : Bytes} {hdr : List Bytes} {rows : List (List Bytes)}
+    (hr : readAll text = .ok (hdr :: rows)) :
+    loadT ths text = .ok { header := hdr, cells := rows.map (castRow ths hdr) } := by
+  unfold loadT
+  rw [hr]
+  exact deriveTableT_good ths (readAll_good hr)
+
+theorem castRow_length (ths hdr r : List Bytes) (h : r.length = hdr.length) : (castRow ths hdr r).length = hdr.length := by
+  simp [castRow, h]
 
 /-! ## cast -/
 
@@ -553,5 +619,732 @@ theorem renderQ_noCR (rows : List (List Bytes)) (h : ∀ r ∈ rows, ∀ f ∈ r
     · exact renderRowQ_noCR r (h r (by simp)) b hb
     · subst hb; decide
     · exact ih (fun x hx => h x (by simp [hx])) b hb
+
+/-! ## a rendered prefix followed by anything; ragged rows -/
+
+theorem normalize_append_noCR (a : Bytes) (h : ∀ b ∈ a, b ≠ bCR) (rest : Bytes) :
+    normalize (a ++ rest) = a ++ normalize rest := by
+  induction a with
+  | nil => rfl
+  | cons b a ih =>
+    have hb : (b == bCR) = false := by simpa using h b (by simp)
+    simp only [List.cons_append, normalize, hb, Bool.false_eq_true, ↓reduceIte]
+    rw [ih (fun x hx => h x (by simp [hx]))]
+
+/-- `scan_rows_of_row` with a continuation: uniform rows are read and the reader goes on -/
+theorem scan_rows_prefix (rend : List (List Bytes) → Bytes) (rendRow : List Bytes → Bytes)
+    (hnil : rend [] = []) (hcons : ∀ r rs, rend (r :: rs) = rendRow r ++ bNL :: rend rs)
+    (n : Nat) (rows : List (List Bytes)) (P : List Bytes → Prop)
+    (hrow : ∀ r, P r → ∀ (recs : List (List Bytes)) (rest : Bytes),
+      scan (.start true) { field := [], fields := [], recs := recs } (rendRow r ++ bNL :: rest) =
+        afterRecord (endRec recs r) rest)
+    (hw : ∀ r ∈ rows, r.length = n ∧ P r) :
+    ∀ (recs : List (List Bytes)) (rest : Bytes), (∀ r ∈ recs, r.length = n) →
+      scan (.start true) { field := [], fields := [], recs := recs } (rend rows ++ rest) =
+        scan (.start true) { field := [], fields := [], recs := recs ++ rows } rest := by
+  induction rows with
+  | nil => intro recs rest _; simp [hnil]
+  | cons r rs ih =>
+    intro recs rest hrecs
+    obtain ⟨hlen, hp⟩ := hw r (by simp)
+    rw [hcons, List.append_assoc, List.cons_append, hrow r hp recs (rend rs ++ rest)]
+    cases recs with
+    | nil =>
+      simp only [endRec, afterRecord]
+      rw [ih (fun x hx => hw x (by simp [hx])) [r] rest (by simpa using hlen)]
+      simp
+    | cons first tl =>
+      have : r.length = first.length := by rw [hlen, hrecs first (by simp)]
+      simp only [endRec, this, beq_self_eq_true, ↓reduceIte, afterRecord]
+      rw [ih (fun x hx => hw x (by simp [hx])) (first :: tl ++ [r]) rest]
+      · simp
+      · intro x hx
+        simp only [List.mem_append, List.mem_singleton] at hx
+        rcases hx with hx | hx
+        · exact hrecs x hx
+        · rw [hx, hlen]
+
+theorem endRec_ragged {recs : List (List Bytes)} {r first : List Bytes} (hf : recs.head? = some first)
+    (h : r.length ≠ first.length) : endRec recs r = .error .fieldCount := by
+  cases recs with
+  | nil => simp at hf
+  | cons a tl =>
+    simp only [List.head?_cons, Option.some.injEq] at hf
+    subst hf
+    simp [endRec, h]
+
+/-! ## the reader over `renderM` output (mixed quoting) -/
+
+/-- a trimmed ASCII space at the start of a field, also at the start of a line -/
+theorem scan_space_start' (first : Bool) (st : St) (rest : Bytes) :
+    scan (.start first) st (bSpace :: rest) = scan (.start false) st rest := by
+  rw [scan]
+  have : (bSpace == bNL) = false := by decide
+  simp [spaceLen_space, this]
+
+theorem scan_comma_start (first : Bool) (st : St) (rest : Bytes) :
+    scan (.start first) st (bComma :: rest) = scan (.start false) st.endField rest := by
+  rw [scan]
+  have h1 : (bComma == bNL) = false := by decide
+  have h2 : (bComma == bQuote) = false := by decide
+  simp only [h1, h2, spaceLen_comma, Bool.and_false, Bool.false_eq_true, ↓reduceIte, beq_self_eq_true]
+
+theorem scan_comma_unquoted (st : St) (rest : Bytes) :
+    scan .unquoted st (bComma :: rest) = scan (.start false) st.endField rest := by
+  rw [scan]
+  simp only [beq_self_eq_true, ↓reduceIte]
+
+/-- `spaceLen_append` for the three bytes that can end a run of plain bytes -/
+theorem spaceLen_append3 (b : UInt8) (f : Bytes) (c : UInt8) (rest : Bytes)
+    (h : spaceLen (b :: f) = 0) (hc : c = bNL ∨ c = bComma ∨ c = bQuote) : spaceLen (b :: (f ++ c :: rest)) = 0 := by
+  have hc1 : (c == 0x85) = false ∧ (c == 0xA0) = false ∧ (c == 0x9A) = false ∧ (c == 0x80) = false ∧ (c == 0x81) = false
+      ∧ (c == 0x9F) = false ∧ (c == 0xA8) = false ∧ (c == 0xA9) = false ∧ (c == 0xAF) = false ∧ (0x80 ≤ c) = false := by
+    rcases hc with rfl | rfl | rfl <;> decide
+  obtain ⟨h1, h2, h3, h4, h5, h6, h7, h8, h9, h10⟩ := hc1
+  match f, h with
+  | [], h =>
+    simp only [spaceLen] at h ⊢
+    simp only [List.nil_append]
+    repeat' split
+    all_goals first
+      | (simp_all; done)
+      | (simp_all; rename_i hh; exact absurd hh.2.1 (UInt8.not_le.mpr h10))
+  | [b1], h =>
+    simp only [spaceLen] at h ⊢
+    simp only [List.cons_append, List.nil_append]
+    repeat' split
+    all_goals first
+      | (simp_all; done)
+      | (simp_all; rename_i hh; exact absurd hh.2.1 (UInt8.not_le.mpr h10))
+  | b1 :: b2 :: t, h =>
+    simpa [spaceLen] using h
+
+/-- a non-empty plain run at the start of a field, up to a `"`: the bare-quote error -/
+theorem scan_start_plain_quote (first : Bool) (st : St) (b : UInt8) (f rest : Bytes)
+    (hp : plainField (b :: f) = true) :
+    scan (.start first) st (b :: (f ++ bQuote :: rest)) = .error .bareQuote := by
+  rw [plainField_iff] at hp
+  obtain ⟨hall, hsp⟩ := hp
+  have hb := hall b (by simp)
+  have hk := spaceLen_append3 b f bQuote rest hsp (Or.inr (Or.inr rfl))
+  have h1 : (b == bNL) = false := by simpa using hb.2.2.1
+  have h2 : (b == bQuote) = false := by simpa using hb.2.1
+  have h3 : (b == bComma) = false := by simpa using hb.1
+  rw [scan]
+  simp only [h1, h2, h3, hk, Bool.and_false, Bool.false_eq_true, ↓reduceIte, beq_self_eq_true]
+  rw [scan_unquoted_run f (fun x hx => by have := hall x (by simp [hx]); exact ⟨this.1, this.2.2.1, this.2.1⟩)]
+  rw [scan]
+  have h4 : (bQuote == bComma) = false := by decide
+  have h5 : (bQuote == bNL) = false := by decide
+  simp [h4, h5]
+
+/-- one field written by `fieldM`, followed by a comma -/
+theorem scan_fieldM_comma (q sp : Bytes → Bool) (f : Bytes) (hf : q f = true ∨ plainField f = true)
+    (first : Bool) (done : List Bytes) (recs : List (List Bytes)) (rest : Bytes) :
+    scan (.start first) { field := [], fields := done, recs := recs } (fieldM q sp f ++ bComma :: rest) =
+      scan (.start false) { field := [], fields := done ++ [f], recs := recs } rest := by
+  -- after the optional space the reader is at the start of the field proper
+  have key : ∀ first', scan (.start first') { field := [], fields := done, recs := recs }
+      ((if q f then quoteField f else f) ++ bComma :: rest) =
+      scan (.start false) { field := [], fields := done ++ [f], recs := recs } rest := by
+    intro first'
+    rcases Bool.eq_false_or_eq_true (q f) with hq | hq
+    · simp only [hq, ↓reduceIte, quoteField, List.cons_append, List.append_assoc, List.nil_append]
+      rw [scan_start_quote, scan_quoted_run, scan_close_comma]
+      simp [St.endField]
+    · have hpl : plainField f = true := by
+        rcases hf with h | h
+        · rw [hq] at h; cases h
+        · exact h
+      simp only [hq, Bool.false_eq_true, ↓reduceIte]
+      cases f with
+      | nil => rw [List.nil_append, scan_comma_start]; simp [St.endField]
+      | cons b f' =>
+        rw [List.cons_append, scan_start_plain first' _ b f' rest bComma hpl (Or.inr rfl), scan_comma_unquoted]
+        simp [St.endField]
+  unfold fieldM
+  rcases Bool.eq_false_or_eq_true (sp f) with hs | hs
+  · simp only [hs, ↓reduceIte, List.cons_append, List.nil_append]
+    rw [scan_space_start']
+    exact key false
+  · simp only [hs, Bool.false_eq_true, ↓reduceIte, List.nil_append]
+    exact key first
+
+/-- one field written by `fieldM`, followed by the line end -/
+theorem scan_fieldM_nl (q sp : Bytes → Bool) (f : Bytes) (hf : q f = true ∨ plainField f = true)
+    (first : Bool) (done : List Bytes) (recs : List (List Bytes)) (rest : Bytes)
+    (hfirst : first = true → f = [] → q f = false → sp f = true) :
+    scan (.start first) { field := [], fields := done, recs := recs } (fieldM q sp f ++ bNL :: rest) =
+      afterRecord (endRec recs (done ++ [f])) rest := by
+  have key : ∀ first', (first' = true → f = [] → q f = false → False) →
+      scan (.start first') { field := [], fields := done, recs := recs }
+      ((if q f then quoteField f else f) ++ bNL :: rest) = afterRecord (endRec recs (done ++ [f])) rest := by
+    intro first' hfirst'
+    rcases Bool.eq_false_or_eq_true (q f) with hq | hq
+    · simp only [hq, ↓reduceIte, quoteField, List.cons_append, List.append_assoc, List.nil_append]
+      rw [scan_start_quote, scan_quoted_run, scan_close_nl]
+      rfl
+    · have hpl : plainField f = true := by
+        rcases hf with h | h
+        · rw [hq] at h; cases h
+        · exact h
+      simp only [hq, Bool.false_eq_true, ↓reduceIte]
+      cases f with
+      | nil =>
+        have : first' = false := by
+          rcases Bool.eq_false_or_eq_true first' with h | h
+          · exact absurd (hfirst' h rfl hq) id
+          · exact h
+        subst this
+        rw [List.nil_append, scan_nl_start]
+        rfl
+      | cons b f' =>
+        rw [List.cons_append, scan_start_plain first' _ b f' rest bNL hpl (Or.inl rfl), scan_nl_unquoted]
+        rfl
+  unfold fieldM
+  rcases Bool.eq_false_or_eq_true (sp f) with hs | hs
+  · simp only [hs, ↓reduceIte, List.cons_append, List.nil_append]
+    rw [scan_space_start']
+    exact key false (by intro h; cases h)
+  · simp only [hs, Bool.false_eq_true, ↓reduceIte, List.nil_append]
+    exact key first (fun h1 h2 h3 => by have := hfirst h1 h2 h3; rw [hs] at this; cases this)
+
+/-- the complete fields of a row that goes on -/
+theorem scan_fieldsM (q sp : Bytes → Bool) (fs : List Bytes) (hfs : ∀ f ∈ fs, q f = true ∨ plainField f = true) :
+    ∀ (first : Bool) (done : List Bytes) (recs : List (List Bytes)) (rest : Bytes),
+      scan (.start first) { field := [], fields := done, recs := recs } (fieldsM q sp fs ++ rest) =
+        scan (.start (first && fs.isEmpty)) { field := [], fields := done ++ fs, recs := recs } rest := by
+  induction fs with
+  | nil => intro first done recs rest; simp [fieldsM]
+  | cons f fs ih =>
+    intro first done recs rest
+    simp only [fieldsM, List.append_assoc, List.cons_append]
+    rw [scan_fieldM_comma q sp f (hfs f (by simp)), ih (fun x hx => hfs x (by simp [hx]))]
+    simp
+
+theorem scan_rowM (q sp : Bytes → Bool) (r : List Bytes) (hp : ∀ f ∈ r, q f = true ∨ plainField f = true) :
+    ∀ (first : Bool) (done : List Bytes) (recs : List (List Bytes)) (rest : Bytes),
+      r ≠ [] → (first = true → r = [[]] → q [] = false → sp [] = true) →
+      scan (.start first) { field := [], fields := done, recs := recs } (renderRowM q sp r ++ bNL :: rest) =
+        afterRecord (endRec recs (done ++ r)) rest := by
+  induction r with
+  | nil => intro _ _ _ _ h; exact absurd rfl h
+  | cons f fs ih =>
+    intro first done recs rest _ hfirst
+    cases fs with
+    | nil =>
+      simp only [renderRowM]
+      exact scan_fieldM_nl q sp f (hp f (by simp)) first done recs rest
+        (fun h1 h2 h3 => by subst h2; exact hfirst h1 rfl h3)
+    | cons g gs =>
+      have ih' := ih (fun x hx => hp x (by simp [hx])) false (done ++ [f]) recs rest (by simp) (by simp)
+      have hassoc : done ++ [f] ++ g :: gs = done ++ f :: g :: gs := by simp
+      rw [hassoc] at ih'
+      simp only [renderRowM, List.append_assoc, List.cons_append]
+      rw [scan_fieldM_comma q sp f (hp f (by simp))]
+      exact ih'
+
+theorem fieldM_noCR (q sp : Bytes → Bool) (f : Bytes) (h : ∀ b ∈ f, b ≠ bCR) : ∀ b ∈ fieldM q sp f, b ≠ bCR := by
+  intro b hb
+  unfold fieldM at hb
+  simp only [List.mem_append] at hb
+  rcases hb with hb | hb
+  · split at hb
+    · simp only [List.mem_singleton] at hb; subst hb; decide
+    · simp at hb
+  · split at hb
+    · simp only [quoteField, List.mem_cons, List.mem_append, List.not_mem_nil, or_false] at hb
+      rcases hb with hb | hb | hb
+      · subst hb; decide
+      · exact escapeQ_noCR f h b hb
+      · subst hb; decide
+    · exact h b hb
+
+theorem renderRowM_noCR (q sp : Bytes → Bool) (r : List Bytes) (h : ∀ f ∈ r, ∀ b ∈ f, b ≠ bCR) :
+    ∀ b ∈ renderRowM q sp r, b ≠ bCR := by
+  induction r with
+  | nil => simp [renderRowM]
+  | cons f fs ih =>
+    cases fs with
+    | nil => simpa [renderRowM] using fieldM_noCR q sp f (h f (by simp))
+    | cons g gs =>
+      intro b hb
+      simp only [renderRowM, List.mem_append, List.mem_cons] at hb
+      rcases hb with hb | hb | hb
+      · exact fieldM_noCR q sp f (h f (by simp)) b hb
+      · subst hb; decide
+      · exact ih (fun x hx => h x (by simp [hx])) b hb
+
+theorem renderM_noCR (q sp : Bytes → Bool) (rows : List (List Bytes)) (h : ∀ r ∈ rows, ∀ f ∈ r, ∀ b ∈ f, b ≠ bCR) :
+    ∀ b ∈ renderM q sp rows, b ≠ bCR := by
+  induction rows with
+  | nil => simp [renderM]
+  | cons r rs ih =>
+    intro b hb
+    simp only [renderM, List.mem_append, List.mem_cons] at hb
+    rcases hb with hb | hb | hb
+    · exact renderRowM_noCR q sp r (h r (by simp)) b hb
+    · subst hb; decide
+    · exact ih (fun x hx => h x (by simp [hx])) b hb
+
+theorem fieldsM_noCR (q sp : Bytes → Bool) (fs : List Bytes) (h : ∀ f ∈ fs, ∀ b ∈ f, b ≠ bCR) :
+    ∀ b ∈ fieldsM q sp fs, b ≠ bCR := by
+  induction fs with
+  | nil => simp [fieldsM]
+  | cons f fs ih =>
+    intro b hb
+    simp only [fieldsM, List.mem_append, List.mem_cons] at hb
+    rcases hb with hb | hb | hb
+    · exact fieldM_noCR q sp f (h f (by simp)) b hb
+    · subst hb; decide
+    · exact ih (fun x hx => h x (by simp [hx])) b hb
+
+/-! ## the quote errors need a quote -/
+
+theorem endRec_quoteFree (recs : List (List Bytes)) (r : List Bytes) :
+    endRec recs r ≠ .error .quote ∧ endRec recs r ≠ .error .bareQuote := by
+  unfold endRec
+  split
+  · simp
+  · split <;> simp
+
+theorem finish_quoteFree (st : St) : finish st ≠ .error .quote ∧ finish st ≠ .error .bareQuote := by
+  unfold finish
+  split
+  · rename_i e heq
+    have := endRec_quoteFree st.recs (st.fields ++ [st.field])
+    constructor <;> intro h <;> simp only [Except.error.injEq] at h <;> subst h
+    · exact this.1 heq
+    · exact this.2 heq
+  · simp
+
+/-- the reader is not inside a quoted field -/
+def Mode.outside : Mode → Bool
+  | .quoted => false
+  | .quoteSeen => false
+  | _ => true
+
+theorem scan_quoteFree (m : Mode) (st : St) (bs : Bytes) :
+    m.outside = true → (∀ b ∈ bs, b ≠ bQuote) →
+      scan m st bs ≠ .error .quote ∧ scan m st bs ≠ .error .bareQuote := by
+  fun_induction scan m st bs <;> intro hm hq
+  all_goals first
+    | (simp [Mode.outside] at hm; done)
+    | (simp; done)
+    | exact finish_quoteFree _
+    | (rename_i ih; exact ih rfl (fun x hx => hq x (by simp [hx])))
+    | (rename_i hb _; exact absurd (by simpa using hb) (hq _ (by simp)))
+    | (rename_i hb; exact absurd (by simpa using hb) (hq _ (by simp)))
+    | (rename_i e heq
+       constructor <;> intro h <;> simp only [Except.error.injEq] at h <;> subst h
+       · exact (endRec_quoteFree _ _).1 heq
+       · exact (endRec_quoteFree _ _).2 heq)
+    | (rename_i st' heq ih; exact ih rfl (fun x hx => hq x (by simp [hx])))
+
+theorem mem_normalize (bs : Bytes) : ∀ b ∈ normalize bs, b ∈ bs := by
+  fun_induction normalize bs
+  all_goals first
+    | (simp; done)
+    | (rename_i ih; intro b hb; simp only [List.mem_cons] at hb ⊢
+       rcases hb with hb | hb
+       · subst hb; simp_all
+       · exact Or.inr (ih b hb))
+    | (rename_i ih; intro b hb; exact List.mem_cons_of_mem _ (ih b hb))
+
+/-! ## digit strings through `readFloat` -/
+
+set_option maxRecDepth 100000 in
+theorem digitFacts : ∀ i : Fin 256, isDigit (UInt8.ofFin i) = true →
+    lower (UInt8.ofFin i) = UInt8.ofFin i ∧ (UInt8.ofFin i - 0x30).toNat < 10 ∧
+    UInt8.ofFin i ≠ 0x5F ∧ UInt8.ofFin i ≠ 0x2E ∧ UInt8.ofFin i ≠ 0x2B ∧ UInt8.ofFin i ≠ 0x2D ∧
+    UInt8.ofFin i ≠ 0x69 ∧ UInt8.ofFin i ≠ 0x49 ∧ UInt8.ofFin i ≠ 0x6E ∧ UInt8.ofFin i ≠ 0x4E ∧ UInt8.ofFin i ≠ 0x78 := by
+  decide
+
+theorem digit_facts {c : UInt8} (h : isDigit c = true) :
+    lower c = c ∧ (c - 0x30).toNat < 10 ∧ c ≠ 0x5F ∧ c ≠ 0x2E ∧ c ≠ 0x2B ∧ c ≠ 0x2D ∧
+    c ≠ 0x69 ∧ c ≠ 0x49 ∧ c ≠ 0x6E ∧ c ≠ 0x4E ∧ c ≠ 0x78 := by
+  have := digitFacts c.toFin (by simpa using h)
+  simpa using this
+
+/-- the decimal mantissa scan keeps `nd` = the number of decimal digits of `mant` -/
+def Mant.NdOk (m : Mant) : Prop :=
+  (m.mant = 0 ∧ m.nd = 0) ∨ (0 < m.nd ∧ 10 ^ (m.nd - 1) ≤ m.mant ∧ m.mant < 10 ^ m.nd)
+
+theorem Mant.add_ndOk (m : Mant) (d : Nat) (hd : d < 10) (h : m.NdOk) : (m.add 10 d).NdOk := by
+  unfold Mant.NdOk Mant.add at *
+  rcases h with ⟨h0, hn⟩ | ⟨hpos, hlo, hhi⟩
+  · rcases Nat.eq_zero_or_pos d with hd0 | hd0
+    · left; simp [h0, hn, hd0]
+    · right
+      have : (d == 0) = false := by simp; omega
+      simp [h0, hn, this]
+      omega
+  · right
+    have hnd : (m.nd == 0) = false := by simp; omega
+    simp only [hnd, Bool.and_false, Bool.false_eq_true, ↓reduceIte, Nat.add_sub_cancel]
+    obtain ⟨k, hk⟩ : ∃ k, m.nd = k + 1 := ⟨m.nd - 1, by omega⟩
+    rw [hk] at hlo hhi ⊢
+    simp only [Nat.add_sub_cancel] at hlo
+    rw [Nat.pow_succ] at hhi ⊢
+    rw [Nat.pow_succ]
+    refine ⟨by omega, by omega, by omega⟩
+
+/-- the mantissa scan state after the digits `ds` -/
+def addDigits (m : Mant) (ds : Bytes) : Mant := ds.foldl (fun m c => m.add 10 (c - 0x30).toNat) m
+
+theorem scanMant_digits (ds : Bytes) (h : allDigits ds = true) (m : Mant) :
+    scanMant false m ds = (addDigits m ds, []) := by
+  induction ds generalizing m with
+  | nil => rfl
+  | cons c ds ih =>
+    simp only [allDigits, List.all_cons, Bool.and_eq_true] at h
+    have f := digit_facts h.1
+    have h1 : (c == 0x5F) = false := by simpa using f.2.2.1
+    have h2 : (c == 0x2E) = false := by simpa using f.2.2.2.1
+    simp only [scanMant, h1, h2, h.1, Bool.false_eq_true, ↓reduceIte]
+    rw [ih (by simpa [allDigits] using h.2)]
+    rfl
+
+theorem addDigits_fields (ds : Bytes) (h : allDigits ds = true) (m : Mant) :
+    (addDigits m ds).mant = ds.foldl (fun acc c => acc * 10 + (c - 0x30).toNat) m.mant ∧
+    (addDigits m ds).sawDot = m.sawDot ∧ (addDigits m ds).underscores = m.underscores ∧
+    (m.sawDot = false → (addDigits m ds).frac = m.frac) ∧
+    ((addDigits m ds).sawDigits = (m.sawDigits || !ds.isEmpty)) ∧
+    (m.NdOk → (addDigits m ds).NdOk) := by
+  induction ds generalizing m with
+  | nil => simp [addDigits]
+  | cons c ds ih =>
+    simp only [allDigits, List.all_cons, Bool.and_eq_true] at h
+    have f := digit_facts h.1
+    have := ih (by simpa [allDigits] using h.2) (m.add 10 (c - 0x30).toNat)
+    simp only [addDigits, List.foldl_cons] at this ⊢
+    obtain ⟨t1, t2, t3, t4, t5, t6⟩ := this
+    refine ⟨by rw [t1]; rfl, by rw [t2]; rfl, by rw [t3]; rfl, ?_, ?_, ?_⟩
+    · intro hs
+      rw [t4 (by simpa [Mant.add] using hs)]
+      simp [Mant.add, hs]
+    · rw [t5]; simp [Mant.add]
+    · intro hok
+      exact t6 (Mant.add_ndOk m _ f.2.1 hok)
+
+
+
+theorem special_digit (c : UInt8) (t : Bytes) (h : isDigit c = true) : special (c :: t) = none := by
+  have f := digit_facts h
+  obtain ⟨_, _, _, _, f1, f2, f3, f4, f5, f6, _⟩ := f
+  simp [special, f1, f2, f3, f4, f5, f6]
+
+theorem readFloat_digits (ds : Bytes) (hne : ds ≠ []) (h : allDigits ds = true) :
+    readFloat ds = some (.dec false (addDigits {} ds).mant (addDigits {} ds).nd 0) := by
+  cases ds with
+  | nil => exact absurd rfl hne
+  | cons c t =>
+    have hc : isDigit c = true := by
+      simp only [allDigits, List.all_cons, Bool.and_eq_true] at h; exact h.1
+    have f := digit_facts hc
+    have fl := addDigits_fields (c :: t) h {}
+    obtain ⟨_, g2, g3, g4, g5, _⟩ := fl
+    have g4' := g4 rfl
+    have h1 : (c == 0x2B) = false := by simpa using f.2.2.2.2.1
+    have h2 : (c == 0x2D) = false := by simpa using f.2.2.2.2.2.1
+    have hsc := scanMant_digits (c :: t) h {}
+    simp only [List.isEmpty_cons, Bool.not_false, Bool.or_true] at g5
+    have fin : ∀ (m : Mant), m = addDigits {} (c :: t) →
+        (if (!m.sawDigits) = true then none else
+          if ((m.underscores || false) && !underscoreOK (c :: t)) = true then none
+          else some (Lit.dec false m.mant m.nd (((0 : Nat) : Int) - (m.frac : Int)))) =
+        some (Lit.dec false m.mant m.nd 0) := by
+      intro m hm
+      subst hm
+      rw [g5, g3, g4']
+      simp
+    unfold readFloat
+    simp only [h1, h2, Bool.false_eq_true, ↓reduceIte]
+    -- no base prefix: the second character, if any, is a digit
+    match t, h, hsc with
+    | [], _, hsc =>
+      simp only [hsc]
+      simpa using fin _ rfl
+    | [c1], _, hsc =>
+      simp only [hsc]
+      simpa using fin _ rfl
+    | c1 :: c2 :: t2, h, hsc =>
+      have hc1 : isDigit c1 = true := by
+        simp only [allDigits, List.all_cons, Bool.and_eq_true] at h; exact h.2.1
+      have f1 := digit_facts hc1
+      have : (lower c1 == 0x78) = false := by rw [f1.1]; simpa using f1.2.2.2.2.2.2.2.2.2.2
+      simp only [this, Bool.and_false, Bool.false_eq_true, ↓reduceIte, hsc]
+      simpa using fin _ rfl
+
+
+theorem roundHalfEven_one (a : Nat) : roundHalfEven a 1 = a := by
+  simp [roundHalfEven, Nat.mod_one]
+
+
+theorem floorLog2Ratio_one (n : Nat) (hn : n ≠ 0) : floorLog2Ratio n 1 = (n.log2 : Int) := by
+  have h1 : (1 : Nat).log2 = 0 := by decide
+  have h2 : 2 ^ n.log2 ≤ n := Nat.log2_self_le hn
+  simp [floorLog2Ratio, h1, h2]
+
+theorem roundBits_nat (n : Nat) (hn : n ≠ 0) (h : n < 2 ^ 53) : roundBits n 1 = bitsOfNat n := by
+  have hL : n.log2 < 53 := (Nat.log2_lt hn).mpr h
+  have h2 : 2 ^ n.log2 ≤ n := Nat.log2_self_le hn
+  have hpow : 2 ^ n.log2 * 2 ^ (52 - n.log2) = 2 ^ 52 := by
+    rw [← Nat.pow_add]; congr 1; omega
+  have hge : 2 ^ 52 ≤ n * 2 ^ (52 - n.log2) := by
+    rw [← hpow]; exact Nat.mul_le_mul_right _ h2
+  unfold roundBits bitsOfNat
+  rw [floorLog2Ratio_one n hn]
+  simp only [hn, ↓reduceIte]
+  have e1 : ¬ ((n.log2 : Int) < -1022) := by omega
+  simp only [e1, ↓reduceIte]
+  have e2 : ((n.log2 : Int) + 1022).toNat = n.log2 + 1022 := by omega
+  rw [e2]
+  by_cases hs : (n.log2 : Int) - 52 ≥ 0
+  · have : n.log2 = 52 := by omega
+    simp only [this]
+    simp [roundHalfEven_one]
+    rw [this] at hge
+    simp at hge
+    omega
+  · have e3 : (-((n.log2 : Int) - 52)).toNat = 52 - n.log2 := by omega
+    simp only [hs, ↓reduceIte, e3, roundHalfEven_one]
+    omega
+
+
+theorem bitsOfNat_lt_bitsInf (n : Nat) (h : n < 2 ^ 53) : bitsOfNat n < bitsInf := by
+  unfold bitsOfNat bitsInf
+  split
+  · decide
+  · rename_i hn
+    have hL : n.log2 < 53 := (Nat.log2_lt hn).mpr h
+    have h3 : n < 2 ^ (n.log2 + 1) := Nat.lt_log2_self
+    have hpow : 2 ^ (n.log2 + 1) * 2 ^ (52 - n.log2) = 2 ^ 53 := by
+      rw [← Nat.pow_add]; congr 1; omega
+    have hlt : n * 2 ^ (52 - n.log2) < 2 ^ 53 := by
+      rw [← hpow]; exact Nat.mul_lt_mul_of_pos_right h3 (Nat.pow_pos (by decide))
+    have : (1023 + n.log2) * 2 ^ 52 ≤ 1075 * 2 ^ 52 := Nat.mul_le_mul_right _ (by omega)
+    omega
+
+theorem natOf_eq_addDigits (ds : Bytes) (h : allDigits ds = true) : (addDigits {} ds).mant = natOf ds :=
+  (addDigits_fields ds h {}).1
+
+/-- a literal that is a plain string of decimal digits: mantissa = the number, `nd` = its number
+of digits, exponent 0 -/
+theorem parseLit_digits (ds : Bytes) (hne : ds ≠ []) (h : allDigits ds = true) :
+    ∃ nd, parseLit ds = some (.dec false (natOf ds) nd 0) ∧
+      ((natOf ds = 0 ∧ nd = 0) ∨ (0 < nd ∧ 10 ^ (nd - 1) ≤ natOf ds ∧ natOf ds < 10 ^ nd)) := by
+  refine ⟨(addDigits {} ds).nd, ?_, ?_⟩
+  · unfold parseLit
+    cases ds with
+    | nil => exact absurd rfl hne
+    | cons c t =>
+      have hc : isDigit c = true := by
+        simp only [allDigits, List.all_cons, Bool.and_eq_true] at h; exact h.1
+      rw [special_digit c t hc]
+      simp only
+      rw [readFloat_digits (c :: t) hne h, natOf_eq_addDigits _ h]
+  · have := (addDigits_fields ds h {}).2.2.2.2.2 (Or.inl ⟨rfl, rfl⟩)
+    unfold Mant.NdOk at this
+    rw [natOf_eq_addDigits _ h] at this
+    exact this
+
+/-- **Integers below 2^53 are parsed exactly**: a string of decimal digits denoting `n < 2^53` is
+given the bit pattern of the binary64 number `n`. -/
+theorem parseFloat_digits (ds : Bytes) (hne : ds ≠ []) (h : allDigits ds = true) (hlt : natOf ds < 2 ^ 53) :
+    parseFloat ds = some (bitsOfNat (natOf ds)) := by
+  obtain ⟨nd, hl, hnd⟩ := parseLit_digits ds hne h
+  unfold parseFloat
+  rw [hl]
+  simp only [Lit.bits]
+  rcases hnd with ⟨h0, _⟩ | ⟨hpos, hlo, _⟩
+  · simp [h0, bitsOfNat, withSign]
+  · have hn : natOf ds ≠ 0 := by
+      have : 0 < 10 ^ (nd - 1) := Nat.pow_pos (by decide)
+      omega
+    have hnd17 : nd ≤ 16 := by
+      rcases Nat.lt_or_ge nd 17 with h17 | h17
+      · omega
+      · have : 10 ^ 16 ≤ 10 ^ (nd - 1) := Nat.pow_le_pow_right (by decide) (by omega)
+        have : (2 : Nat) ^ 53 < 10 ^ 16 := by decide
+        omega
+    have hb : (natOf ds == 0) = false := by simpa using hn
+    have h1 : ¬ ((nd : Int) + 0 > 310) := by omega
+    have h2 : ¬ ((nd : Int) + 0 < -330) := by omega
+    have h3 : ¬ (roundBits (natOf ds) 1 ≥ bitsInf) := by
+      rw [roundBits_nat _ hn hlt]
+      have := bitsOfNat_lt_bitsInf _ hlt
+      omega
+    rw [roundBits_nat _ hn hlt] at h3
+    have h3' : ¬ (bitsInf ≤ bitsOfNat (natOf ds)) := h3
+    have h2' : ¬ ((nd : Int) < -330) := by omega
+    simp [hb, withSign, roundBits_nat _ hn hlt, h3', h2']
+    omega
+
+/-! ## every decimal literal carries its digit count -/
+
+theorem scanMant_ndOk (m : Mant) (s : Bytes) (hm : m.NdOk) : (scanMant false m s).1.NdOk := by
+  induction s generalizing m with
+  | nil => exact hm
+  | cons c rest ih =>
+    unfold scanMant
+    split
+    · exact ih _ hm
+    · split
+      · split
+        · exact hm
+        · exact ih _ hm
+      · split
+        · rename_i hd
+          exact ih _ (Mant.add_ndOk _ _ (digit_facts hd).2.1 hm)
+        · simp only [Bool.false_and, Bool.false_eq_true, ↓reduceIte]
+          exact hm
+
+/-- what `readFloat` does after the sign and the base prefix -/
+def readFloatTail (s : Bytes) (neg hex : Bool) (s2 : Bytes) : Option Lit :=
+  let (m, s3) := scanMant hex {} s2
+  if !m.sawDigits then none else
+  let done (eNeg : Bool) (e : Nat) (us : Bool) : Option Lit :=
+    if (m.underscores || us) && !underscoreOK s then none
+    else
+      let ev : Int := if eNeg then -(e : Int) else (e : Int)
+      if hex then some (.hex neg m.mant (ev - 4 * (m.frac : Int)))
+      else some (.dec neg m.mant m.nd (ev - (m.frac : Int)))
+  match s3 with
+  | [] => if hex then none else done false 0 false
+  | c :: s4 =>
+    if lower c == (if hex then 0x70 else 0x65) then
+      let (eNeg, s5) : Bool × Bytes := match s4 with
+        | c :: t => if c == 0x2B then (false, t) else if c == 0x2D then (true, t) else (false, s4)
+        | [] => (false, s4)
+      match s5 with
+      | [] => none
+      | d :: _ =>
+        if !isDigit d then none
+        else
+          let (e, us, s6) := scanExp 0 false s5
+          if s6.isEmpty then done eNeg e us else none
+    else none
+
+theorem readFloat_eq_tail (s : Bytes) : ∃ neg hex s2, readFloat s = readFloatTail s neg hex s2 := by
+  unfold readFloat
+  exact ⟨_, _, _, rfl⟩
+
+theorem readFloatTail_dec (s : Bytes) (neg hex : Bool) (s2 : Bytes) (n : Bool) (mant nd : Nat) (e : Int)
+    (h : readFloatTail s neg hex s2 = some (.dec n mant nd e)) :
+    hex = false ∧ mant = (scanMant hex {} s2).1.mant ∧ nd = (scanMant hex {} s2).1.nd := by
+  unfold readFloatTail at h
+  generalize scanMant hex {} s2 = p at h ⊢
+  obtain ⟨m, s3⟩ := p
+  simp only at h
+  rcases Bool.eq_false_or_eq_true hex with hh | hh
+  · subst hh
+    exfalso
+    simp only [↓reduceIte] at h
+    repeat' split at h
+    all_goals first
+      | (simp at h; done)
+      | (exfalso; simp at *; done)
+  · subst hh
+    refine ⟨rfl, ?_⟩
+    simp only [Bool.false_eq_true, ↓reduceIte] at h
+    repeat' split at h
+    all_goals first
+      | (simp at h; done)
+      | (simp at h; exact ⟨h.2.1.symm, h.2.2.1.symm⟩)
+
+
+theorem special_not_dec (s : Bytes) (n : Bool) (mant nd : Nat) (e : Int) :
+    special s ≠ some (some (.dec n mant nd e)) := by
+  unfold special
+  simp only
+  repeat' split
+  all_goals simp
+
+/-- every decimal literal the grammar yields carries `nd` = the number of decimal digits of its
+mantissa (0 for the mantissa 0) -/
+theorem parseLit_dec_ndOk (s : Bytes) (n : Bool) (mant nd : Nat) (e : Int)
+    (h : parseLit s = some (.dec n mant nd e)) :
+    (mant = 0 ∧ nd = 0) ∨ (0 < nd ∧ 10 ^ (nd - 1) ≤ mant ∧ mant < 10 ^ nd) := by
+  unfold parseLit at h
+  split at h
+  · rename_i r hr
+    subst h
+    exact absurd hr (special_not_dec s n mant nd e)
+  · obtain ⟨neg, hex, s2, heq⟩ := readFloat_eq_tail s
+    rw [heq] at h
+    obtain ⟨hh, hm, hn⟩ := readFloatTail_dec s neg hex s2 n mant nd e h
+    subst hh
+    have := scanMant_ndOk {} s2 (Or.inl ⟨rfl, rfl⟩)
+    unfold Mant.NdOk at this
+    rw [← hm, ← hn] at this
+    exact this
+
+/-! ## small facts used by the C20 statements -/
+
+theorem render_append (a b : List (List Bytes)) : render (a ++ b) = render a ++ render b := by
+  induction a with
+  | nil => rfl
+  | cons r rs ih => simp [render, ih]
+
+theorem wellFormedRowsM_iff (q sp : Bytes → Bool) (n : Nat) (rows : List (List Bytes)) :
+    wellFormedRowsM q sp n rows = true ↔ n ≥ 1 ∧ ∀ r ∈ rows, r.length = n ∧
+      (∀ f ∈ r, (∀ b ∈ f, b ≠ bCR) ∧ (q f = true ∨ plainField f = true)) ∧
+      (r = [[]] → q [] = false → sp [] = true) := by
+  simp only [wellFormedRowsM, Bool.and_eq_true, decide_eq_true_eq, List.all_eq_true, beq_iff_eq,
+    bne_iff_ne, Bool.or_eq_true, Bool.not_eq_true', Bool.and_eq_false_imp, Bool.not_eq_false', ne_eq]
+  constructor
+  · rintro ⟨hn, hw⟩
+    refine ⟨hn, fun r hr => ?_⟩
+    obtain ⟨⟨hl, hf⟩, hb⟩ := hw r hr
+    exact ⟨hl, hf, fun h1 h2 => hb ⟨h1, h2⟩⟩
+  · rintro ⟨hn, hw⟩
+    refine ⟨hn, fun r hr => ?_⟩
+    obtain ⟨hl, hf, hb⟩ := hw r hr
+    exact ⟨⟨hl, hf⟩, fun h1 => hb h1.1 h1.2⟩
+
+/-- what the reader has consumed without complaint: well-formed rows, then complete fields of the
+next row; `CRfree` keeps the line-end rewriting out of the picture -/
+theorem readAll_after_prefix (q sp : Bytes → Bool) (n : Nat) (pre : List (List Bytes)) (fs : List Bytes)
+    (a tail : Bytes) (hpre : wellFormedRowsM q sp n pre = true)
+    (hfs : ∀ f ∈ fs, (∀ b ∈ f, b ≠ bCR) ∧ (q f = true ∨ plainField f = true))
+    (ha : ∀ b ∈ a, b ≠ bCR) :
+    readAll (renderM q sp pre ++ fieldsM q sp fs ++ a ++ tail) =
+      scan (.start (fs.isEmpty)) { field := [], fields := fs, recs := pre } (a ++ normalize tail) := by
+  obtain ⟨hn, hw⟩ := (wellFormedRowsM_iff q sp n pre).mp hpre
+  have hnoCR : ∀ b ∈ renderM q sp pre ++ fieldsM q sp fs ++ a, b ≠ bCR := by
+    intro b hb
+    rcases List.mem_append.mp hb with hb | hb
+    · rcases List.mem_append.mp hb with hb | hb
+      · exact renderM_noCR q sp pre (fun r hr f hf => ((hw r hr).2.1 f hf).1) b hb
+      · exact fieldsM_noCR q sp fs (fun f hf => (hfs f hf).1) b hb
+    · exact ha b hb
+  unfold readAll
+  rw [normalize_append_noCR _ hnoCR, List.append_assoc, List.append_assoc]
+  have := scan_rows_prefix (renderM q sp) (renderRowM q sp) rfl (fun _ _ => rfl) n pre
+    (fun r => (∀ f ∈ r, q f = true ∨ plainField f = true) ∧ r ≠ [] ∧ (r = [[]] → q [] = false → sp [] = true))
+    (fun r hp recs rest => by
+      have := scan_rowM q sp r hp.1 true [] recs rest hp.2.1 (fun _ => hp.2.2)
+      simpa using this)
+    (fun r hr => by
+      obtain ⟨hl, hf, hb⟩ := hw r hr
+      refine ⟨hl, fun f hf' => (hf f hf').2, ?_, hb⟩
+      intro h0
+      rw [h0] at hl
+      simp at hl
+      omega)
+    [] (fieldsM q sp fs ++ (a ++ normalize tail)) (by simp)
+  rw [this, scan_fieldsM q sp fs (fun f hf => (hfs f hf).2)]
+  simp
+
+
+theorem table?_append_new (ds : DataSet) (name : Bytes) (t : Table) (h : ds.table? name = none) :
+    ({ ds with tables := ds.tables ++ [(name, t)] } : DataSet).table? name = some t := by
+  unfold DataSet.table? at h ⊢
+  simp only [List.find?_append]
+  split at h
+  · simp at h
+  · rename_i hnone
+    simp [hnone]
 
 end Crem.Csv
